@@ -10,10 +10,17 @@
    and the caller — whatever any handler, closure or other call is doing ([response_completes_call]).
    Together with [request_loop_never_waits_for_handlers] and C01's callee theorem every hop of an
    alternating chain needs only its own goroutines.
-   NOT proved (part (b)): the composition of these per-endpoint progress theorems into deadlock
-   freedom of arbitrary alternating chains in the closed two-registry system (needs application
-   handlers and the network as a model); decided by the nesting workloads of the check. *)
-From Verif Require Import Base Link LinkProofs LinkInvB LinkInvK.
+   Composed (Pair.v: two endpoints and a network) into one hop of any call chain:
+   [hop_completes_whatever_else_is_stalled] — in every reachable state of the closed system, a call
+   that waits for its response on a healthy link is completed by at most ten steps, all of them
+   steps of its own goroutines on the two sides or deliveries of its own two frames; the premises
+   say nothing about any other goroutine of either endpoint (stalled handlers, running closures,
+   calls in any state).  A chain that alternates direction is a sequence of such hops, each made
+   from inside a handler that is, for this theorem, just another stalled goroutine.
+   NOT proved (part (b)): the induction over the depth of a chain with application handlers that
+   themselves issue the next call as part of the model (handlers are opaque here); decided by the
+   nesting workloads of the check. *)
+From Verif Require Import Base Link LinkProofs LinkInvB LinkInvK Pair PairProofs PairProgress.
 
 Theorem request_loop_never_waits_for_handlers :
   forall calls s f arg,
@@ -95,3 +102,31 @@ Proof.
     vm_compute. reflexivity.
   - repeat split.
 Qed.
+
+Theorem hop_completes_whatever_else_is_stalled :
+  forall (fn : nat -> fnkind) callsA callsB l0 p i ent arg x e,
+    prun fn callsA callsB pinit l0 = Some p ->
+    bclosed (pa p) = false -> tget (threads (pa p)) TResLoop = Some RLReading ->
+    memN 0%N (cancelled (pa p)) = false -> f_unmarshal (flt (pa p)) = None ->
+    tget (threads (pa p)) (TCall i) = Some CBlocked -> tget (threads (pa p)) (TWaiter i) = Some (WBlocked ent) ->
+    req_written (evs (pa p)) i = Some arg ->
+    tget (threads (pb p)) TReqLoop = Some QLReading -> memN 0%N (cancelled (pb p)) = false -> no_callee_faults (pb p) ->
+    returns_at_once (fn i) = true -> handler_result (fn i) arg = Some (x, e) ->
+    exists l p' v er,
+      length l <= 10 /\ Forall (own_action p i) l /\ prun fn callsA callsB p l = Some p' /\
+      tget (threads (pa p')) (TCall i) = Some (CReturned v er) /\ (er = None -> e = None).
+Proof. exact hop_completes_lemma. Qed.
+Print Assumptions hop_completes_whatever_else_is_stalled.
+
+(* the premises are met with a stalled handler on each side *)
+Theorem hop_premises_are_met :
+  exists p, prun hx_fn hx_calls [] pinit hx_sched = Some p /\
+    bclosed (pa p) = false /\ tget (threads (pa p)) TResLoop = Some RLReading /\
+    memN 0%N (cancelled (pa p)) = false /\ f_unmarshal (flt (pa p)) = None /\
+    tget (threads (pa p)) (TCall 1) = Some CBlocked /\ tget (threads (pa p)) (TWaiter 1) = Some (WBlocked 1) /\
+    req_written (evs (pa p)) 1 = Some 11%N /\
+    tget (threads (pb p)) TReqLoop = Some QLReading /\ memN 0%N (cancelled (pb p)) = false /\ no_callee_faults (pb p) /\
+    returns_at_once (hx_fn 1) = true /\ handler_result (hx_fn 1) 11%N = Some (11%N, None) /\
+    tget (threads (pb p)) (THandler 0) = Some (HGate 10%N) /\ tget (threads (pa p)) (THandler 0) = Some (HGate 5%N).
+Proof. exact hop_premises_example. Qed.
+Print Assumptions hop_premises_are_met.
